@@ -84,6 +84,16 @@ let init () =
         (match ps.ps_op with OpIntersection -> "0" | OpUnion -> "1" | OpEntirePlane -> "2")
         ^ " " ^ z_out ps.ps_left.px ^ " " ^ z_out ps.ps_left.py ^ " " ^ z_out ps.ps_right.px ^ " " ^ z_out ps.ps_right.py
     | _ -> "BAD-ARGS");
+  (* constructors: with_center top-left, centre of the result, centre of the sector at (cx,cy) as top-left; sector and arc *)
+  register "sec_ctor" (function
+    | [cx; cy; d] ->
+        let ps = mkps "2" "0" "1024" "0" "1024" in
+        let s = se_with_center (pt cx cy) (z_in d) ps and a = ar_with_center (pt cx cy) (z_in d) ps in
+        let s2 = { se_tl = pt cx cy; se_d = z_in d; se_ps = ps } and a2 = { ar_tl = pt cx cy; ar_d = z_in d; ar_ps = ps } in
+        let o p = z_out p.px ^ " " ^ z_out p.py in
+        "S " ^ o s.se_tl ^ " " ^ z_out s.se_d ^ " C " ^ o (se_center s) ^ " C0 " ^ o (se_center s2)
+        ^ " A " ^ o a.ar_tl ^ " " ^ z_out a.ar_d ^ " C " ^ o (ar_center a) ^ " C0 " ^ o (ar_center a2)
+    | _ -> "BAD-ARGS");
   register "sec_offset" (function
     | [x; y; d; off] ->
         let s = se_offset { se_tl = pt x y; se_d = z_in d; se_ps = mkps "2" "0" "1024" "0" "1024" } (z_in off) in
